@@ -3,7 +3,8 @@ SPEC = {
     "level": "proof",
     "lean_modules": ["PallasVerif.Props.C18"],
     "required_theorems": ["varuint_roundtrip", "varuint_length_le", "pointer_roundtrip", "header_spec", "address_roundtrip",
-                          "hex_roundtrip", "bech32_roundtrip", "hrp_matches_network", "display_fromStr_roundtrip"],
+                          "hex_roundtrip", "bech32_roundtrip", "hrp_matches_network", "bech32_prefix_matches_network",
+                          "display_fromStr_roundtrip"],
     "streams": [{"name": "address", "quick": 1200, "thorough": 40000}],
     "rule": "a case is 4..16 ops: mk (build one of the 10 address shapes from a network id 0..15 through Network::from, random / all-00 / "
             "all-ff 28-byte hashes, pointer components boundary-weighted over the whole u64 range incl. every 7-bit group boundary; "
@@ -15,8 +16,11 @@ SPEC = {
         "Model/Address.lean is a hand transcription of varuint.rs and of the Shelley/stake half of pallas-addresses/src/lib.rs; "
         "tie = stream `address` (to_vec bytes, header, hrp, from_bytes/from_hex results incl. error class, varuint bytes and consumed "
         "length, pointer parse compared on every op)",
-        "the bech32 crate is a parameter of the model (stated law: dec (enc hrp b) = (hrp, b)); bech32 text and Display/FromStr are "
-        "exercised only by the harness oracle on the real crate, not by the model",
+        "the bech32 crate is a parameter of the theorems (stated law: dec (enc hrp b) = (hrp, b)); for the correspondence the model "
+        "carries an executable BIP-173 bech32 (b32Encode / b32Decode as the crate's encode::<Bech32> and checksum-agnostic decode): the "
+        "bech32 text of every mainnet/testnet address (`mk` ... b32=) and Address::from_bech32 on valid, foreign-hrp, corrupted and "
+        "truncated lower-case text (`fromb32`) are compared; the law itself is not proved for it; Display/FromStr are exercised only "
+        "by the harness oracle",
         "header type 8 (Byron) is delegated to C19: one opaque outcome on both sides",
     ],
     "assumptions": [
